@@ -20,28 +20,28 @@ import (
 )
 
 type Engine struct {
-	repo         string
-	fset         *token.FileSet
-	prog         *ssa.Program
-	pkgs         []*packages.Package
-	typesPkgs    map[string]*types.Package
-	ssaPkgs      map[string]*ssa.Package
-	specs        *SpecSet
-	funcs        map[string][]*ssa.Function // key (type args stripped) -> functions/instances
-	loopCache    map[*ssa.Function]*loopInfo
-	ipdomCache   map[*ssa.Function]map[*ssa.BasicBlock]*ssa.BasicBlock
-	writesCache  map[*ssa.Function]map[string]*Sort
-	writesBusy   map[*ssa.Function]bool
-	typeIDs      map[string]int
-	fnIDs        map[*ssa.Function]int
-	errVars      map[*Term]bool
-	unknownCalls map[string]int
-	formats      map[string]string
-	loadSeconds  float64
+	repo          string
+	fset          *token.FileSet
+	prog          *ssa.Program
+	pkgs          []*packages.Package
+	typesPkgs     map[string]*types.Package
+	ssaPkgs       map[string]*ssa.Package
+	specs         *SpecSet
+	funcs         map[string][]*ssa.Function // key (type args stripped) -> functions/instances
+	loopCache     map[*ssa.Function]*loopInfo
+	ipdomCache    map[*ssa.Function]map[*ssa.BasicBlock]*ssa.BasicBlock
+	writesCache   map[*ssa.Function]map[string]*Sort
+	writesBusy    map[*ssa.Function]bool
+	typeIDs       map[string]int
+	fnIDs         map[*ssa.Function]int
+	errVars       map[*Term]bool
+	unknownCalls  map[string]int
+	formats       map[string]string
+	loadSeconds   float64
 	contractFiles []string
-	timeoutS     int
-	seed         int
-	thorough     bool
+	timeoutS      int
+	seed          int
+	thorough      bool
 }
 
 func (eng *Engine) pos(p token.Pos) string {
